@@ -1,3 +1,4 @@
+import copy
 import typing
 from ast import *
 
@@ -92,7 +93,7 @@ class PendingModule(PendingNode[Module]):
         import_itertools_ast = NamedExpr(
             target=Name(id=asname, ctx=Store()),
             value=Call(
-                func=Name(id="__import__", ctx=Load()),
+                func=utils.builtin("__import__"),
                 args=[Constant(value=libname)],
                 keywords=[],
             ),
@@ -108,7 +109,10 @@ class PendingModule(PendingNode[Module]):
         if self.nsp_global.use_preset_iter_wrapper:
             from .presets import iter_wrapper_body
 
-            self.converted_body.insert(0, iter_wrapper_body)
+            # copy: the preset is shared, `protect_builtins` may modify the nodes
+            self.converted_body.insert(0, copy.deepcopy(iter_wrapper_body))
+
+        utils.protect_builtins(self.node, self.converted_body)
 
         return self.converted_body
 
@@ -551,7 +555,7 @@ class PendingBreak(PendingNode[Break]):
         elif isinstance(self.loop, PendingFor):
             return_value.append(
                 Call(
-                    func=Name(id="setattr", ctx=Load()),
+                    func=utils.builtin("setattr"),
                     args=[
                         self.loop.flow_ctrl_wrapped_iter_expr,
                         Constant(value="_break"),
@@ -619,7 +623,7 @@ class PendingAssign(PendingNode[Assign | AnnAssign]):
 
     def assign_attribute(self, target: Attribute, value: expr) -> expr:
         return Call(
-            func=Name(id="setattr", ctx=Load()),
+            func=utils.builtin("setattr"),
             args=[
                 expr_transf(self.nsp, target.value),
                 Constant(value=target.attr),
@@ -646,7 +650,7 @@ class PendingAssign(PendingNode[Assign | AnnAssign]):
                 # wrap the assign value with `tuple()`
                 # fixing issue #13
                 value=Call(
-                    func=Name(id="tuple", ctx=Load()),
+                    func=utils.builtin("tuple"),
                     args=[value],
                     keywords=[],
                 ),
@@ -669,7 +673,7 @@ class PendingAssign(PendingNode[Assign | AnnAssign]):
                     slice_upper = None
 
                 value_subscript = Call(
-                    func=Name(id="list", ctx=Load()),
+                    func=utils.builtin("list"),
                     args=[
                         Subscript(
                             value=tmp_value_name,
@@ -755,7 +759,7 @@ class PendingAugAssign(PendingNode[AugAssign]):
             )
         return IfExp(
             test=Call(
-                func=Name(id="hasattr", ctx=Load()),
+                func=utils.builtin("hasattr"),
                 args=[target, Constant(value=op_name)],
                 keywords=[],
             ),
@@ -867,7 +871,7 @@ class PendingAugAssign(PendingNode[AugAssign]):
             )
             return_list.append(
                 Call(
-                    func=Name(id="setattr", ctx=Load()),
+                    func=utils.builtin("setattr"),
                     args=[
                         attr_parent,
                         Constant(value=target.attr),
@@ -1037,7 +1041,7 @@ class PendingFunctionDef(_PendingCompoundStmt[FunctionDef]):
             )
         ):
             body_expr = Call(
-                func=Name(id=implicit_wrapper, ctx=Load()),
+                func=utils.builtin(implicit_wrapper),
                 args=[body_expr],
                 keywords=[],
             )
@@ -1079,7 +1083,7 @@ class PendingReturn(PendingNode[Return]):
             elif isinstance(loop, PendingFor):
                 return_list.append(
                     Call(
-                        func=Name(id="setattr", ctx=Load()),
+                        func=utils.builtin("setattr"),
                         args=[
                             loop.flow_ctrl_wrapped_iter_expr,
                             Constant(value="_break"),
@@ -1186,7 +1190,7 @@ class PendingClassDef(_PendingCompoundStmt[ClassDef]):
             )
 
         if metaclass_expr is None:
-            metaclass_expr = Name(id="type", ctx=Load())
+            metaclass_expr = utils.builtin("type")
 
         return_list.append(
             self.nsp.get_assign(
@@ -1246,7 +1250,7 @@ class PendingClassDef(_PendingCompoundStmt[ClassDef]):
         member_value_name = ol_name(OL_CLASS_MEMBER_VALUE)
         load_class = ListComp(
             elt=Call(
-                func=Name(id="setattr", ctx=Load()),
+                func=utils.builtin("setattr"),
                 args=[
                     self.nsp.get_load_name(self.node.name),
                     Name(id=member_key_name, ctx=Load()),
@@ -1364,11 +1368,11 @@ class PendingImportFrom(PendingNode[ImportFrom]):
         import_body = NamedExpr(
             target=Name(id=tmp_mod_name, ctx=Store()),
             value=Call(
-                func=Name(id="__import__", ctx=Load()),
+                func=utils.builtin("__import__"),
                 args=[
                     Constant(value=mod_name),
-                    Call(func=Name(id="globals", ctx=Load()), args=[], keywords=[]),
-                    Call(func=Name(id="locals", ctx=Load()), args=[], keywords=[]),
+                    Call(func=utils.builtin("globals"), args=[], keywords=[]),
+                    Call(func=utils.builtin("locals"), args=[], keywords=[]),
                     List(elts=from_list, ctx=Load()),
                     Constant(value=self.node.level),
                 ],
